@@ -4,6 +4,7 @@ import Genshi.Model.PyParse
 import Genshi.Model.PyParseS
 import Genshi.Model.PyStmtX
 import Genshi.Model.PyScope
+import Genshi.Model.PyLeaves
 import Driver.PyWire
 namespace Driver.C13
 open Genshi Genshi.Py Genshi.Sexp Driver.PyWire
@@ -84,6 +85,18 @@ def handle : List Sexp → Option Sexp
       match ss.mapM decS with
       | none => some (.atom "unmodelled")
       | some body => some (.list [.atom "ok", encTree (freeGlobals body), encTree (scopeTree (xformS body))])
+  -- the leaf tokens of a tree in source order (`Model/PyLeaves.lean`; `outside` when the tree is
+  -- outside the domain `leafOK` / `leafOKB` of `leaves_in_order`)
+  | [.atom "leaves", t] =>
+      match decE t with
+      | none => some (.atom "unmodelled")
+      | some e =>
+        if leafOK e then some (.list [.atom "ok", .list ((leaves e).map encTok)]) else some (.atom "outside")
+  | [.atom "leavesS", .list ss] =>
+      match ss.mapM decS with
+      | none => some (.atom "unmodelled")
+      | some body =>
+        if leafOKB body then some (.list [.atom "ok", .list ((leavesB body).map encTok)]) else some (.atom "outside")
   | _ => none
 
 end Driver.C13
